@@ -40,6 +40,7 @@ type c16Case struct {
 	Proto    string
 	First    string // goodauth | badauth | call | push | reply | authreply | badtype | malformed | truncated | nothing | callsfirst
 	Verdict  string // bycreds | retry (receive a second time on bad credentials) | reject-after-setid | panic
+	Renames  int    // the checker renames the session this many times before its verdict (a provisional id, then the claimed one)
 	Pipeline int    // CALL frames pipelined behind the first frame in the same write
 	Pushes   int
 	OneWrite bool
@@ -51,6 +52,7 @@ func genC16(t *rapid.T, protos []vt.NamedProto) c16Case {
 	c := c16Case{Proto: rapid.SampledFrom(protos).Draw(t, "proto").Name}
 	c.First = rapid.SampledFrom([]string{"goodauth", "goodauth", "goodauth", "badauth", "call", "push", "reply", "authreply", "badtype", "malformed", "truncated", "nothing", "callsfirst"}).Draw(t, "first")
 	c.Verdict = rapid.SampledFrom([]string{"bycreds", "bycreds", "bycreds", "retry", "retry", "reject-after-setid", "panic"}).Draw(t, "verdict")
+	c.Renames = rapid.SampledFrom([]int{0, 0, 1, 2, 3}).Draw(t, "renames")
 	c.Pipeline = rapid.IntRange(0, 3).Draw(t, "pipeline")
 	c.Pushes = rapid.IntRange(0, 2).Draw(t, "pushes")
 	c.OneWrite = rapid.Bool().Draw(t, "onewrite")
@@ -73,6 +75,9 @@ func runC16(c c16Case, protos []vt.NamedProto) []string {
 		var info string
 		if stat := recv(&info); !stat.OK() {
 			return nil, stat
+		}
+		for i := 0; i < c.Renames; i++ {
+			sess.SetID(fmt.Sprintf("provisional-%d", i))
 		}
 		switch c.Verdict {
 		case "reject-after-setid":
@@ -203,8 +208,18 @@ func runC16(c c16Case, protos []vt.NamedProto) []string {
 			}
 			return true
 		})
+		// the accepted connection is listed exactly once, under the last id the checker gave it
+		if c.Renames > 0 {
+			want := fmt.Sprintf("provisional-%d", c.Renames-1)
+			if n := srv.CountSession(); n != 1 || r.s.ID() != want {
+				failf("accepted connection renamed %d times by the checker: %d sessions listed, id %q, want 1 and %q", c.Renames, n, r.s.ID(), want)
+			}
+		}
 		r.s.Close()
 		raw.WaitEOF()
+		if n := srv.CountSession(); n != 0 {
+			failf("%d sessions are still listed after the only (accepted) connection was closed", n)
+		}
 		fr := raw.Frames()
 		if len(fr) != 1+c.Pipeline {
 			failf("accepted connection: %d frames written by the server, want 1 auth reply + %d replies", len(fr), c.Pipeline)
@@ -248,6 +263,15 @@ func runC16(c c16Case, protos []vt.NamedProto) []string {
 	if _, ok := srv.GetSession("claimed-user"); ok {
 		failf("the id claimed by a rejected connection is listed")
 	}
+	for i := 0; i < c.Renames; i++ {
+		if _, ok := srv.GetSession(fmt.Sprintf("provisional-%d", i)); ok {
+			failf("provisional id %d given by the checker to a rejected connection is listed", i)
+		}
+	}
+	srv.RangeSession(func(s erpc.Session) bool {
+		failf("RangeSession lists session %q after the only connection was rejected", s.ID())
+		return true
+	})
 	for _, f := range raw.Frames() {
 		if f.Mtype != erpc.TypeAuthReply {
 			failf("a rejected connection received a frame of type %d", f.Mtype)
@@ -259,7 +283,7 @@ func runC16(c c16Case, protos []vt.NamedProto) []string {
 	return fails
 }
 
-const ruleC16 = "serving peer with auth.NewCheckerPlugin (verdict by credentials / second receive attempt on bad credentials / reject after SetID / panic) and a counter on every per-message hook; a raw client's first frame is {good AUTH_CALL, bad AUTH_CALL, CALL, PUSH, REPLY, AUTH_REPLY, unknown type, over-limit garbage, half an auth frame then close, nothing then close, CALL before the auth frame} with 0-3 CALLs and 0-2 PUSHes pipelined behind it, in one write or several, under a generated read chunking; oracle: checker runs exactly once; without a successful exchange no handler and no per-message hook runs, the client gets at most one AUTH_REPLY then EOF, nothing is indexed (also not under the id the checker set); with a successful exchange the pipelined CALLs are answered exactly once; non-trivial = first frame is not a plain good AUTH_CALL or frames are pipelined; distinct by case"
+const ruleC16 = "serving peer with auth.NewCheckerPlugin (verdict by credentials / second receive attempt on bad credentials / reject after SetID / panic; before its verdict the checker renames the session 0-3 times) and a counter on every per-message hook; a raw client's first frame is {good AUTH_CALL, bad AUTH_CALL, CALL, PUSH, REPLY, AUTH_REPLY, unknown type, over-limit garbage, half an auth frame then close, nothing then close, CALL before the auth frame} with 0-3 CALLs and 0-2 PUSHes pipelined behind it, in one write or several, under a generated read chunking; oracle: checker runs exactly once; without a successful exchange no handler and no per-message hook runs, the client gets at most one AUTH_REPLY then EOF, nothing is indexed (also not under any id the checker set); with a successful exchange the pipelined CALLs are answered exactly once; non-trivial = first frame is not a plain good AUTH_CALL or frames are pipelined; distinct by case"
 
 func TestC16Auth(t *testing.T) {
 	rec := vt.NewRec(t, "C16", "checker", ruleC16)
